@@ -40,6 +40,7 @@ type funcContract struct {
 	recovers      string   // a deferred function recovers panics of this type (callee panics of that type are not propagated)
 	atcalls       []*atcall
 	preserves     []string  // parameters whose referent is assumed untouched by heap-writing callees (tree shape)
+	abstractFloat bool      // float64 + - * / as uninterpreted functions (congruence only)
 	preciseAppend bool      // generate quantified content facts for append (needed only by functional contracts on slices)
 	decrGroup     string    // recursion group of the measure: only calls within one group are compared
 	fdecr         []*clause // function-level termination measure (lexicographic), checked at every call in the recursion group
@@ -115,6 +116,7 @@ type contracts struct {
 	globalRoots  []string
 	funcFields   map[string]string // "pkg.Type.field" -> function key
 	nonnil       map[string]bool   // "field pkg.T.f" | "elems pkg.T" | "payload pkg.T"
+	fieldRange   map[string][2]string
 }
 
 func (c *contracts) get(key string) *funcContract { return c.funcs[key] }
@@ -122,7 +124,7 @@ func (c *contracts) get(key string) *funcContract { return c.funcs[key] }
 var clauseKeywords = map[string]bool{"func": true, "pred": true, "spec": true, "requires": true, "ensures": true, "assigns": true,
 	"loop": true, "panics": true, "inline": true, "trusted": true, "noreturn": true, "props": true, "pure": true,
 	"field": true, "evaltype": true, "frameroot": true, "freshresult": true, "globalroot": true,
-	"implements": true, "recovers": true, "decreases": true, "funcfield": true, "precise-append": true, "nonnil": true, "preserves": true, "atcall": true}
+	"implements": true, "recovers": true, "decreases": true, "funcfield": true, "precise-append": true, "nonnil": true, "preserves": true, "atcall": true, "abstract-float": true, "fieldrange": true}
 
 func loadContractFile(c *contracts, path string, pkgpath string) error {
 	data, err := os.ReadFile(path)
@@ -257,6 +259,8 @@ func loadContractFile(c *contracts, path string, pkgpath string) error {
 			}
 		case "precise-append":
 			cur.preciseAppend = true
+		case "abstract-float":
+			cur.abstractFloat = true
 		case "atcall":
 			// atcall <callee>#<k> requires <expr>
 			f := strings.Fields(rest)
@@ -333,6 +337,16 @@ func loadContractFile(c *contracts, path string, pkgpath string) error {
 			cur = nil
 		case "frameroot": // frameroot pkg.func : entry point of the ownership analysis (parameters are shared memory)
 			c.frameRoots = append(c.frameRoots, strings.Fields(rest)...)
+			cur = nil
+		case "fieldrange": // fieldrange pkg.T.f lo hi : data-structure invariant lo <= x.f <= hi (assumed at loads, checked at stores)
+			f := strings.Fields(rest)
+			if len(f) != 3 {
+				return fmt.Errorf("%s:%d: bad fieldrange directive", path, r.line)
+			}
+			if c.fieldRange == nil {
+				c.fieldRange = map[string][2]string{}
+			}
+			c.fieldRange[f[0]] = [2]string{f[1], f[2]}
 			cur = nil
 		case "nonnil": // data-structure invariants:  nonnil field T.f ... | nonnil elems T ... | nonnil payload T ...
 			f := strings.Fields(rest)
